@@ -77,6 +77,19 @@ func VrfC15Raft() {
 	cfg.BackupsRotate = vrf_nondet_int("backups_rotate")
 	cfg.RaftConfig.SnapshotThreshold = vrf_nondet_uint64("snapshot_threshold")
 	cfg.RaftConfig.TrailingLogs = vrf_nondet_uint64("trailing_logs")
+	cfg.RaftConfig.HeartbeatTimeout = time.Duration(vrf_nondet_int64("heartbeat_timeout"))
+	cfg.RaftConfig.ElectionTimeout = time.Duration(vrf_nondet_int64("election_timeout"))
+	cfg.RaftConfig.CommitTimeout = time.Duration(vrf_nondet_int64("commit_timeout"))
+	cfg.RaftConfig.SnapshotInterval = time.Duration(vrf_nondet_int64("snapshot_interval"))
+	cfg.RaftConfig.LeaderLeaseTimeout = time.Duration(vrf_nondet_int64("leader_lease_timeout"))
+	cfg.RaftConfig.MaxAppendEntries = vrf_nondet_int("max_append_entries")
+	// hashicorp/raft's own limits for its timing settings (its ValidateConfig): only
+	// values it accepts are explored for these fields
+	ms := time.Millisecond
+	rc0 := cfg.RaftConfig
+	vrf_assume(vrf_and(vrf_and(rc0.HeartbeatTimeout >= 5*ms, rc0.ElectionTimeout >= rc0.HeartbeatTimeout),
+		vrf_and(vrf_and(rc0.CommitTimeout >= ms, rc0.SnapshotInterval >= 5*ms), vrf_and(rc0.LeaderLeaseTimeout >= 5*ms, rc0.LeaderLeaseTimeout <= rc0.HeartbeatTimeout))))
+	vrf_assume(vrf_and(rc0.MaxAppendEntries > 0, rc0.MaxAppendEntries <= 1024))
 	valid := cfg.Validate() == nil
 	raw, err := cfg.ToJSON()
 	vrf_assert(err == nil, "C15.raft.save-ok")
@@ -94,6 +107,11 @@ func VrfC15Raft() {
 		vrf_assert(back.CommitRetries == cfg.CommitRetries && back.BackupsRotate == cfg.BackupsRotate, "C15.raft.roundtrip")
 		vrf_assert(vrf_or(back.RaftConfig.SnapshotThreshold == cfg.RaftConfig.SnapshotThreshold, vrf_and(cfg.RaftConfig.SnapshotThreshold == 0, back.RaftConfig.SnapshotThreshold == dd.RaftConfig.SnapshotThreshold)), "C15.raft.roundtrip-raftconfig")
 		vrf_assert(vrf_or(back.RaftConfig.TrailingLogs == cfg.RaftConfig.TrailingLogs, vrf_and(cfg.RaftConfig.TrailingLogs == 0, back.RaftConfig.TrailingLogs == dd.RaftConfig.TrailingLogs)), "C15.raft.roundtrip-raftconfig")
+		// the hashicorp/raft timing settings (a valid value is never zero)
+		rc, bc := cfg.RaftConfig, back.RaftConfig
+		vrf_assert(vrf_and(vrf_and(bc.HeartbeatTimeout == rc.HeartbeatTimeout, bc.ElectionTimeout == rc.ElectionTimeout),
+			vrf_and(bc.CommitTimeout == rc.CommitTimeout, vrf_and(bc.SnapshotInterval == rc.SnapshotInterval, bc.LeaderLeaseTimeout == rc.LeaderLeaseTimeout))), "C15.raft.roundtrip-raft-timing")
+		vrf_assert(bc.MaxAppendEntries == rc.MaxAppendEntries, "C15.raft.roundtrip-raftconfig")
 	} else {
 		zeroish := vrf_or(cfg.WaitForLeaderTimeout == 0, vrf_or(cfg.NetworkTimeout == 0, vrf_or(cfg.CommitRetryDelay == 0, cfg.BackupsRotate == 0)))
 		vrf_assert(vrf_or(zeroish, lerr != nil), "C15.raft.invalid-rejected")
